@@ -1,0 +1,95 @@
+/* This Source Code Form is subject to the terms of the Mozilla Public
+ * License, v. 2.0. If a copy of the MPL was not distributed with this
+ * file, You can obtain one at https://mozilla.org/MPL/2.0/. */
+//! Read-only observation hooks used by external verification
+//! machinery. Only compiled with the `verif-hooks` feature; nothing
+//! here changes Foca's behaviour.
+extern crate alloc;
+use alloc::vec::Vec;
+
+use crate::{
+    BroadcastHandler, ConnectionState, Foca, Identity, Incarnation, Member, ProbeNumber,
+    TimerToken,
+};
+
+/// Things Foca did, in the order it did them.
+#[derive(Debug, Clone, PartialEq, Eq)]
+pub enum Event {
+    /// A (serialized) cluster update was accepted for dissemination
+    UpdateQueued(Vec<u8>),
+    /// A custom broadcast item was accepted for dissemination
+    CustomQueued(Vec<u8>),
+    /// A datagram was handed to the runtime
+    Sent,
+}
+
+/// A copy of Foca's otherwise private bookkeeping.
+#[derive(Debug, Clone, PartialEq, Eq)]
+pub struct Snapshot<T> {
+    /// Current incarnation
+    pub incarnation: Incarnation,
+    /// Current timer token
+    pub timer_token: TimerToken,
+    /// 0 = disconnected, 1 = connected, 2 = undead
+    pub connection_state: u8,
+    /// Member being probed, if any
+    pub probe_target: Option<Member<T>>,
+    /// Members asked to probe indirectly that haven't answered yet
+    pub probe_indirect: Vec<T>,
+    /// Current probe number
+    pub probe_number: ProbeNumber,
+    /// Direct ack received
+    pub probe_direct_ack: bool,
+    /// Number of indirect acks received
+    pub probe_indirect_acks: usize,
+    /// Whether the indirect probe stage has been reached
+    pub probe_reached_indirect: bool,
+    /// Cluster updates backlog: (bytes, remaining transmissions)
+    pub updates: Vec<(Vec<u8>, usize)>,
+    /// Custom broadcasts backlog: (bytes, remaining transmissions)
+    pub custom_broadcasts: Vec<(Vec<u8>, usize)>,
+}
+
+impl<T, C, RNG, B> Foca<T, C, RNG, B>
+where
+    T: Identity,
+    B: BroadcastHandler<T>,
+{
+    /// Copies Foca's private bookkeeping.
+    pub fn verif_snapshot(&self) -> Snapshot<T> {
+        let (target, indirect, probe_number, direct_ack, indirect_acks, reached) =
+            self.probe.verif_state();
+        Snapshot {
+            incarnation: self.incarnation,
+            timer_token: self.timer_token,
+            connection_state: match self.connection_state {
+                ConnectionState::Disconnected => 0,
+                ConnectionState::Connected => 1,
+                ConnectionState::Undead => 2,
+            },
+            probe_target: target.cloned(),
+            probe_indirect: indirect.to_vec(),
+            probe_number,
+            probe_direct_ack: direct_ack,
+            probe_indirect_acks: indirect_acks,
+            probe_reached_indirect: reached,
+            updates: self.updates.verif_entries(),
+            custom_broadcasts: self.custom_broadcasts.verif_entries(),
+        }
+    }
+
+    /// Takes the event log accumulated since the last call.
+    pub fn verif_drain_events(&mut self) -> Vec<Event> {
+        core::mem::take(&mut self.verif_events)
+    }
+
+    /// Read access to the broadcast handler.
+    pub fn verif_broadcast_handler(&self) -> &B {
+        &self.broadcast_handler
+    }
+
+    /// Mutable access to the broadcast handler.
+    pub fn verif_broadcast_handler_mut(&mut self) -> &mut B {
+        &mut self.broadcast_handler
+    }
+}
